@@ -1,0 +1,16 @@
+// SPDX-FileCopyrightText: (C) 2024 Intel Corporation
+// SPDX-License-Identifier: Apache 2.0
+
+//go:build verif
+
+package fdo
+
+import "github.com/fido-device-onboard/go-fdo/serviceinfo"
+
+// simYield forwards to the deterministic-simulation hook of the serviceinfo
+// package; only compiled in with the "verif" build tag.
+func simYield(site string) {
+	if f := serviceinfo.SimYield; f != nil {
+		f(site)
+	}
+}
